@@ -20,7 +20,7 @@ import ast
 from fractions import Fraction as F
 
 from ..loader import AnalysisError
-from ..pe import PE, PyRaise, Tensor, Obj, Func
+from ..pe import PE, PyRaise, Tensor, Obj, Func, Mock
 from .. import quant, qref, prims
 from ..qir import Fwd, equal_mod_finite
 from ..nf import NF, show
